@@ -185,6 +185,12 @@ type c11World struct {
 	raceNode   int
 	raceIssuer string
 	raceDone   chan string
+	// interleaving point inside Credential(): between its reads and its transaction (where it resolves the signing key)
+	hookArmed  bool
+	hookNode   int
+	hookList   string
+	hookIdx    string
+	hookResult string
 }
 
 var c11Bases = []string{"https://n0.example", "https://n1.example/iam"}
@@ -342,7 +348,17 @@ func c11NewWorld(t *testing.T) *c11World {
 		db := storage.NewTestStorageEngine(t).GetSQLDatabase()
 		cs := NewStatusList2021(db, w, base)
 		cs.Sign = c11Sign
-		cs.ResolveKey = c11ResolveKey
+		hookNode := i
+		cs.ResolveKey = func(issuer did.DID, at *time.Time, rel resolver.RelationType) (string, crypto.PublicKey, error) {
+			if w.hookArmed && w.hookNode == hookNode {
+				// a Revoke() of an entry of the list being served commits right here: after Credential() looked at the stored
+				// list, before it takes the lock and re-issues
+				w.hookArmed = false
+				e := StatusList2021Entry{ID: "x", Type: StatusList2021EntryType, StatusPurpose: StatusPurposeRevocation, StatusListIndex: w.hookIdx, StatusListCredential: w.hookList}
+				w.hookResult = c11ErrClass(w.nodes[hookNode].cs.Revoke(context.Background(), ssi.MustParseURI("did:web:example.com#"+w.hookIdx), e))
+			}
+			return c11ResolveKey(issuer, at, rel)
+		}
 		cs.VerifySignature = c11VerifySignature
 		w.nodes = append(w.nodes, &c11Node{cs: cs, base: base})
 		ni := i
@@ -710,6 +726,18 @@ func (w *c11World) exec(op c11Op) (line string) {
 			return "serve " + c11ErrClass(err)
 		}
 		return "serve " + w.describeVC(cred)
+	case "serverace":
+		id, err := did.ParseDID(op.Issuer)
+		if err != nil {
+			return "serverace err:did"
+		}
+		w.hookArmed, w.hookNode, w.hookList, w.hookIdx, w.hookResult = true, op.Node, w.nodes[op.Node].cs.statusListURL(*id, op.Page), op.Idx, "none"
+		cred, err := w.nodes[op.Node].cs.Credential(ctx, *id, op.Page)
+		w.hookArmed = false
+		if err != nil {
+			return "serverace revoke=" + w.hookResult + " " + c11ErrClass(err)
+		}
+		return "serverace revoke=" + w.hookResult + " " + w.describeVC(cred)
 	case "record":
 		// the stored record for a list on a node (what entries are judged by)
 		var rec credentialRecord
@@ -816,6 +844,11 @@ func (g *c11Gen) observe(op c11Op, line string) {
 		if line == "revoke ok" {
 			i, _ := strconv.Atoi(op.Idx)
 			g.revoked = append(g.revoked, c11Entry{list: *op.List, idx: i})
+		}
+	case "serverace":
+		if strings.HasPrefix(line, "serverace revoke=ok") {
+			i, _ := strconv.Atoi(op.Idx)
+			g.revoked = append(g.revoked, c11Entry{list: c11URL{Node: op.Node, Issuer: op.Issuer, Page: op.Page}, idx: i})
 		}
 	case "host":
 		g.hosted = append(g.hosted, op.Host.URL)
@@ -998,6 +1031,21 @@ func (g *c11Gen) next() c11Op {
 			return c11Op{Op: "tick", Secs: g.tickSecs()}
 		}
 		return g.next()
+	case k < 74:
+		// hostile sequence: let a list come close to its expiry, then serve it while a Revoke() of one of its entries commits
+		// between Credential()'s reads and its transaction; the served list and every later verification must show the bit
+		if len(g.entries) == 0 || g.nticks >= 13 {
+			return c11Op{Op: "entry", Node: node, Issuer: g.pick(c11Issuers[:3]), Purpose: StatusPurposeRevocation}
+		}
+		e := g.entries[r.Intn(len(g.entries))]
+		c := c11Cred{ID: "did:web:example.com:iam:alice#r" + strconv.Itoa(r.Intn(3)), IssuerDID: "did:web:example.com:iam:alice",
+			Statuses: []c11Status{{Type: StatusList2021EntryType, Purpose: "revocation", List: e.list, Idx: strconv.Itoa(e.idx)}}}
+		g.pending = append(g.pending,
+			c11Op{Op: "serverace", Node: e.list.Node, Issuer: e.list.Issuer, Page: e.list.Page, Idx: strconv.Itoa(e.idx)},
+			c11Op{Op: "verify", Node: e.list.Node, Cred: &c},
+			c11Op{Op: "verify", Node: 1 - e.list.Node, Cred: &c},
+			c11Op{Op: "serve", Node: e.list.Node, Issuer: e.list.Issuer, Page: e.list.Page})
+		return c11Op{Op: "tick", Secs: []int{71, 72, 72, 72, 96}[r.Intn(5)]*900 + 60}
 	case k < 75:
 		u := g.someList(r.Intn(2))
 		if len(g.hosted) > 0 && r.Intn(3) == 0 {
